@@ -122,6 +122,9 @@ func instrumentFile(src, dst string) (bool, error) {
 				if id, ok := s.X.(*ast.Ident); ok && id.Name == "time" && s.Sel.Name == "AfterFunc" {
 					in.used = true
 					b.Fun = iRT("AfterFunc")
+				} else if id, ok := s.X.(*ast.Ident); ok && id.Name == "time" && s.Sel.Name == "Now" && len(b.Args) == 0 {
+					in.used = true
+					b.Fun = iRT("Now")
 				} else if s.Sel.Name == "Stop" && len(b.Args) == 0 {
 					// timer.Stop() -> verifrt.StopTimer(timer) (other types fall through to their own Stop)
 					in.used = true
